@@ -9,9 +9,11 @@ package c21
 
 import (
 	"fmt"
+	"math/big"
 	"math/rand"
 	"testing"
 
+	"github.com/polynetwork/poly/common"
 	"github.com/polynetwork/poly/common/config"
 	scom "github.com/polynetwork/poly/native/service/cross_chain_manager/common"
 	"github.com/polynetwork/poly/native/service/utils"
@@ -36,7 +38,14 @@ type chainDef struct {
 var chainDefs = []chainDef{
 	{30, utils.VOTE_ROUTER, "vote"}, {31, utils.VOTE_ROUTER, "vote"}, {32, utils.VOTE_ROUTER, "vote"}, {33, utils.ETH_ROUTER, "eth"},
 	{34, utils.HSC_ROUTER, "hsc"}, {35, utils.BYTOM_ROUTER, "bytom"}, {36, utils.HARMONY_ROUTER, "harmony"}, {37, utils.BSC_ROUTER, "bsc"},
+	{rippleDst, utils.RIPPLE_ROUTER, "ripple"},
 }
+
+// rippleDst is a fully configured ripple-router chain used as DESTINATION (not account-based: an
+// accepted import builds a ripple payment record instead of a request): signer list registered in
+// its extra info, asset binding by its operator, base fee voted in, so that its own transaction
+// builder succeeds and only the gates decide.
+const rippleDst = 38
 
 // evmSrc: chains 33 (eth) and 37 (bsc) are proof-authenticated sources with a real light client
 // (trust root + headers installed in the template universe) and a pool of messages committed in
@@ -62,11 +71,46 @@ type hist struct {
 	shape     string
 	evm       map[uint64]*evmSrc
 	evmNext   map[string]int
+	ripple    *rippleCfg
+}
+
+type rippleCfg struct {
+	spec  cs.ChainSpec
+	asset []byte
+}
+
+// rippleArgs is the argument layout a ripple destination expects: asset, receiver, amount.
+func rippleArgs(rng *rand.Rand, asset []byte) []byte {
+	to := make([]byte, 20)
+	rng.Read(to)
+	sink := common.NewZeroCopySink(nil)
+	sink.WriteVarBytes(asset)
+	sink.WriteVarBytes(to)
+	sink.WriteUint64(1000000000 + uint64(rng.Intn(1000000)))
+	return sink.Bytes()
+}
+
+// releasedBy says whether the call committed an outbound transfer: a request record / cross-state
+// leaf for account-based destinations, a ripple payment record for the ripple destination.
+func releasedBy(o *cs.Obs) bool {
+	if len(o.Rec.CrossHashes) > 0 {
+		return true
+	}
+	if n, _, _ := o.TouchedUnder(scom.REQUEST); len(n) > 0 {
+		return true
+	}
+	if n, _, _ := o.TouchedUnder(scom.RIPPLE_TX_INFO); len(n) > 0 {
+		return true
+	}
+	return false
 }
 
 func (h *hist) spec(id uint64) cs.ChainSpec {
 	if e := h.evm[id]; e != nil {
 		return e.s.Spec
+	}
+	if id == rippleDst {
+		return h.ripple.spec
 	}
 	return cs.ChainSpec{ID: id, Router: def(id).router}
 }
@@ -254,6 +298,9 @@ func (h *hist) opImport(src, dst uint64) {
 	cross := make([]byte, 1+h.rng.Intn(32))
 	h.rng.Read(cross)
 	p := cs.RandParam(h.rng, dst, cross)
+	if dst == rippleDst {
+		p.ToContractAddress, p.Args = h.ripple.asset, rippleArgs(h.rng, h.ripple.asset)
+	}
 	im := cs.Import{Source: src, Height: h.rng.Uint32(), Param: p}
 	id := cs.SubjectID(src, im.Height, cs.ExtraOf(p))
 	voters := append([]*pk.Key{}, h.w.Vals...)
@@ -285,10 +332,7 @@ func (h *hist) opImport(src, dst uint64) {
 		o := h.w.Do(func() *nat.CallRecord { return h.w.Vote(im, v) })
 		r.Eval(1)
 		h.logf("import %d->%d at height %d voter=%x model=%s expect-refusal=%q -> ok=%v err=%q touched=%v leaves=%d", src, dst, height, v.Addr[:4], verdict, why, o.Rec.Ok, o.Rec.Err, o.Touched(), len(o.Rec.CrossHashes))
-		released := len(o.Rec.CrossHashes) > 0
-		if n, _, _ := o.TouchedUnder(scom.REQUEST); len(n) > 0 {
-			released = true
-		}
+		released := releasedBy(o)
 		switch {
 		case !srcOK:
 			// the source gate applies to every call of the round
@@ -315,11 +359,17 @@ func (h *hist) opImport(src, dst uint64) {
 				return
 			}
 			r.Count("rejected:"+why, 1)
+			if dst == rippleDst {
+				r.Count("rejected:"+why+":ripple-destination", 1)
+			}
 		case verdict == cs.Reached: // every gate open
 			if o.Rec.Ok && released {
 				accepted = true
 				h.vm.Commit(id, v.Addr, verdict, true)
 				r.Count("accepted", 1)
+				if dst == rippleDst {
+					r.Count("accepted_to_ripple_destination", 1)
+				}
 				if restoring {
 					r.Count("accepted_after_whitelisting", 1)
 				}
@@ -376,10 +426,7 @@ func (h *hist) opImportEVM(e *evmSrc, src, dst uint64) {
 	o := h.w.Do(func() *nat.CallRecord { return e.s.Import(m, idx, nil) })
 	r.Eval(1)
 	h.logf("import %d(%s)->%d valid proof, expect-refusal=%q -> ok=%v err=%q touched=%v leaves=%d", src, name, dst, why, o.Rec.Ok, o.Rec.Err, o.Touched(), len(o.Rec.CrossHashes))
-	released := len(o.Rec.CrossHashes) > 0
-	if n, _, _ := o.TouchedUnder(scom.REQUEST); len(n) > 0 {
-		released = true
-	}
+	released := releasedBy(o)
 	if why != "" {
 		if o.Rec.Ok || !o.Unchanged() || released {
 			dir := "from"
@@ -391,11 +438,17 @@ func (h *hist) opImportEVM(e *evmSrc, src, dst uint64) {
 		}
 		r.Count("rejected:"+why, 1)
 		r.Count("rejected:"+why+":"+name, 1)
+		if dst == rippleDst && (why == "destination-unregistered" || why == "destination-blacklisted") {
+			r.Count("rejected:"+why+":ripple-destination", 1)
+		}
 		return
 	}
 	if o.Rec.Ok && released {
 		r.Count("accepted", 1)
 		r.Count("accepted:"+name, 1)
+		if dst == rippleDst {
+			r.Count("accepted_to_ripple_destination", 1)
+		}
 		if restoring {
 			r.Count("accepted_after_whitelisting", 1)
 			r.Count("accepted_after_whitelisting:"+name, 1)
@@ -418,6 +471,7 @@ type tplT struct {
 	snap *cs.Snapshot
 	outs []*pk.Key
 	evm  map[uint64]*evmSrc
+	rip  *rippleCfg
 	uses int
 }
 
@@ -438,6 +492,41 @@ func runHistory(r *kit.Run, rng *rand.Rand, nVals int, idx int) {
 			return
 		}
 		t = &tplT{w: w, outs: pk.NewKeys(krng, 2), evm: map[uint64]*evmSrc{}}
+		// the ripple destination: registered with its signer list, asset bound by its operator, base fee
+		// voted in by the validators (fee view 0 -> 1), then quit again (binding and fee stay)
+		{
+			operator := pk.NewKey(krng)
+			asset := make([]byte, 20)
+			krng.Read(asset)
+			var pks [][]byte
+			for i := 0; i < 3; i++ {
+				k := make([]byte, 33)
+				krng.Read(k)
+				k[0] = 2
+				pks = append(pks, k)
+			}
+			t.rip = &rippleCfg{asset: asset, spec: cs.ChainSpec{ID: rippleDst, Router: utils.RIPPLE_ROUTER, Name: "xrpl", CCMC: asset,
+				Extra: cs.RippleExtra(operator.Addr, uint64(1+krng.Intn(1000)), 2, 3, pks, big.NewInt(int64(10+krng.Intn(20))))}}
+			if err := w.RegisterAndApprove(t.rip.spec); err != nil {
+				r.Inconclusive("ripple destination: " + err.Error())
+				return
+			}
+			if rec := w.RegisterAsset(operator, rippleDst, map[uint64][]byte{rippleDst: asset}, map[uint64][]byte{rippleDst: asset}); !rec.Ok {
+				r.Inconclusive("ripple destination asset: " + rec.Err)
+				return
+			}
+			for _, v := range w.Vals {
+				w.UpdateFee(v, rippleDst, 0, big.NewInt(int64(2+krng.Intn(5))))
+			}
+			if view, _ := w.Fee(rippleDst); view == 0 {
+				r.Inconclusive("ripple destination: fee not initialised")
+				return
+			}
+			if err := w.QuitAndApprove(rippleDst, nil); err != nil {
+				r.Inconclusive("ripple destination quit: " + err.Error())
+				return
+			}
+		}
 		// the proof-authenticated sources: registered, light client installed, then quit again so that
 		// every history starts with an empty registry (the light-client state stays)
 		for _, d := range []struct {
@@ -447,7 +536,11 @@ func runHistory(r *kit.Run, rng *rand.Rand, nVals int, idx int) {
 			e := &evmSrc{s: w.NewEVMSource(krng, d.kind, d.id), pool: map[uint64][]cs.EVMMessage{}}
 			for _, cd := range chainDefs {
 				for i := 0; i < 5; i++ {
-					e.pool[cd.id] = append(e.pool[cd.id], e.s.Commit(krng, es.RandTxParam(krng, cd.id)))
+					m := es.RandTxParam(krng, cd.id)
+					if cd.id == rippleDst {
+						m.ToContractAddress, m.Args = t.rip.asset, rippleArgs(krng, t.rip.asset)
+					}
+					e.pool[cd.id] = append(e.pool[cd.id], e.s.Commit(krng, m))
 				}
 			}
 			if err := e.s.Seal(krng, 5); err != nil {
@@ -466,7 +559,7 @@ func runHistory(r *kit.Run, rng *rand.Rand, nVals int, idx int) {
 	t.uses++
 	t.w.Restore(t.snap)
 	h := &hist{r: r, rng: rng, w: t.w, outs: t.outs, reg: map[uint64]bool{}, pend: map[uint64]bool{}, black: map[uint64]bool{},
-		justWhite: map[uint64]bool{}, vm: cs.NewVoteModel(), evm: t.evm, evmNext: map[string]int{}}
+		justWhite: map[uint64]bool{}, vm: cs.NewVoteModel(), evm: t.evm, evmNext: map[string]int{}, ripple: t.rip}
 	hs := []uint32{startBlock - 2, startBlock - 1, startBlock, startBlock + 1, 5, 40000000}
 	h.w.E.Height = hs[rng.Intn(len(hs))]
 	ids := []uint64{}
@@ -521,6 +614,8 @@ func runHistory(r *kit.Run, rng *rand.Rand, nVals int, idx int) {
 			h.opImport(pickVote(), pick())
 		case k < 93:
 			h.opImport([]uint64{33, 37}[rng.Intn(2)], pick())
+		case k < 97: // towards the ripple destination
+			h.opImport([]uint64{30, 31, 32, 33, 37}[rng.Intn(5)], rippleDst)
 		default:
 			h.opImport(pick(), pick())
 		}
@@ -554,6 +649,9 @@ func TestC21(t *testing.T) {
 	n := int(r.Get("histories"))
 	r.Require("accepted", n)
 	r.Require("accepted_after_whitelisting", n/10)
+	r.Require("accepted_to_ripple_destination", n/20)
+	r.Require("rejected:destination-blacklisted:ripple-destination", n/40)
+	r.Require("rejected:destination-unregistered:ripple-destination", n/40)
 	r.Require("accepted:eth", n/20)
 	r.Require("accepted:bsc", n/20)
 	r.Require("rejected:source-blacklisted:eth", 1)
